@@ -158,7 +158,8 @@ bool Model::removeUnits(const UnitsPtr &units)
     bool status = false;
     auto result = pFunc()->findUnits(units);
     if (result != pFunc()->mUnits.end()) {
-        units->pFunc()->removeParent();
+        // Update the units that is actually removed (it may only be equal to the one given).
+        (*result)->pFunc()->removeParent();
         pFunc()->mUnits.erase(result);
         status = true;
     }
